@@ -22,7 +22,7 @@ theorem C03_calls (P : List (List α)) (sk : StartKind) (i : Input α)
   | true =>
     refine ⟨[], isOverlapList_nil_of_done P i hd, ?_⟩
     intro n
-    simp [ovlCalls_done (stdLike_ideal P sk) i hd]
+    simp [ovlCalls_done (stdLike_ideal P sk) i (ideal_start P h) hd]
   | false =>
     refine ⟨_, isOverlapList_allMatches P sk i hd, ?_⟩
     intro n
@@ -37,7 +37,7 @@ theorem C03_iter (P : List (List α)) (sk : StartKind) (i : Input α)
   | true =>
     refine ⟨[], isOverlapList_nil_of_done P i hd, ?_⟩
     intro fuel _
-    exact ovlIterAux_done (stdLike_ideal P sk) i hd fuel _
+    exact ovlIterAux_done (stdLike_ideal P sk) i (ideal_start P h) hd fuel _
   | false =>
     refine ⟨_, isOverlapList_allMatches P sk i hd, ?_⟩
     intro fuel hf
